@@ -128,6 +128,12 @@ def engine_ring(tier, seed):
                                                   'field': 'process crashed (rc %s) during %s' % (cr['rc'], aname),
                                                   'expected': None, 'observed': cr['stderr'][-300:],
                                                   'path_acts': pa, 'examined': step, 'path_len': len(pa)})
+            for pidx, rec in first.items():
+                if 'path_acts' not in rec:
+                    if paths is None:
+                        paths = [json.loads(l) for l in open(os.path.join(rdir, 'paths.jsonl'))]
+                    rec['path_acts'] = [acts[a] for a in paths[pidx]]
+                    rec['path_len'] = len(rec['path_acts'])
             ndiv = 0
             for pidx, rec in sorted(first.items()):
                 if vname == 'base':
